@@ -496,6 +496,17 @@ class Folder:
             except FragReturn as r_:
                 return r_.value
             raise Unfoldable("local function returns nothing")
+        if isinstance(node, ast.Call) and isinstance(node.func, ast.Attribute) and not node.keywords and not node.func.attr.startswith("_"):
+            # a public method of a model object (field element .inverse(), ...)
+            try:
+                recv_ = self.fold(node.func.value) if isinstance(node.func.value, (ast.Name, ast.Attribute, ast.Subscript, ast.Call)) else None
+            except Unfoldable:
+                recv_ = None
+            if recv_ is not None and getattr(type(recv_), "_kv_eval_obj", False) and callable(getattr(recv_, node.func.attr, None)):
+                try:
+                    return getattr(recv_, node.func.attr)(*[self.fold(a) for a in node.args])
+                except (TypeError, ValueError, ZeroDivisionError, IndexError) as exc:
+                    raise Unfoldable(str(exc))
         if isinstance(node, ast.Call) and isinstance(node.func, ast.Attribute) and self.funcs and attr_chain(node.func) in self.funcs:
             # a method of the analysed class the caller allows to be followed (`self._helper(...)`)
             fake = ast.Call(func=ast.Name(id=attr_chain(node.func), ctx=ast.Load()), args=node.args, keywords=node.keywords)
@@ -503,7 +514,7 @@ class Folder:
         if isinstance(node, ast.Call) and self.attrs and unparse(node) in self.attrs:
             # a call the caller has bound to a value (e.g. `self.field.primitive_element()`)
             return self.attrs[unparse(node)]
-        if isinstance(node, ast.Call) and isinstance(node.func, ast.Attribute) and not (call_name(node) or "").startswith(("torch.", "math.", "np.", "numpy.", "F.", "cmath.")):
+        if isinstance(node, ast.Call) and isinstance(node.func, ast.Attribute) and not (call_name(node) or "").startswith(("torch.", "math.", "np.", "numpy.", "F.", "cmath.", "itertools.", "chain.")):
             # method form on a foldable receiver: x.abs(), x.sum(dim=..), x.min(dim=..), x.to(..), x.float()
             m = node.func.attr
             if m == "bit_length" and not node.args:
@@ -895,6 +906,26 @@ class Folder:
                 if isinstance(k_, int) and 0 <= k_ <= 512:
                     return [[1 if i == j else 0 for j in range(k_)] for i in range(k_)]
                 raise Unfoldable("eye")
+            if short == "combinations" and len(node.args) == 2 and not node.keywords and nm in ("combinations", "itertools.combinations"):
+                import itertools as _it
+
+                seq_, r_ = self.fold(node.args[0]), self.fold(node.args[1])
+                if not isinstance(seq_, list) or not isinstance(r_, int) or isinstance(r_, bool) or len(seq_) > 24:
+                    raise Unfoldable("combinations")
+                return PySeq(PySeq(c_) for c_ in _it.combinations(seq_, r_))
+            if nm in ("itertools.chain.from_iterable", "chain.from_iterable") and len(node.args) == 1:
+                outer = self.fold(node.args[0])
+                if not isinstance(outer, list) or not all(isinstance(q, list) for q in outer):
+                    raise Unfoldable("chain.from_iterable")
+                return PySeq(x_ for q in outer for x_ in q)
+            if nm == "zip" and node.args and not node.keywords:
+                seqs = [self.fold(a) for a in node.args]
+                if not all(isinstance(q, (list, str)) for q in seqs):
+                    raise Unfoldable("zip of a non-sequence")
+                return PySeq(PySeq(t_) for t_ in zip(*seqs))
+            if nm in ("any", "all") and len(node.args) == 1 and not node.keywords and isinstance(node.args[0], (ast.GeneratorExp, ast.ListComp)):
+                vals = self.fold(node.args[0])
+                return (any if nm == "any" else all)(truth(v_) for v_ in vals)
             if nm == "range" and 1 <= len(node.args) <= 3 and not node.keywords:
                 a = [self.fold(x) for x in node.args]
                 if all(isinstance(x, int) and not isinstance(x, bool) for x in a):
